@@ -316,7 +316,17 @@ fn gen_value(rng: &mut Rng, ascii: bool, max: usize) -> Vec<u8> {
         _ => rng.range(1, max),
     };
     if ascii {
-        (0..len).map(|_| b'a' + (rng.below(26) as u8)).collect()
+        // valid UTF-8, one third of the strings with multi-byte characters
+        // (byte length != char count)
+        if rng.chance(1, 3) {
+            let mut st = String::new();
+            while st.len() < len {
+                st.push(*rng.pick(&['a', 'z', 'é', 'ß', '€', '漢', '😀', 'Ω']));
+            }
+            st.into_bytes()
+        } else {
+            (0..len).map(|_| b'a' + (rng.below(26) as u8)).collect()
+        }
     } else {
         gen::payload(rng, len, gen::Style::Dense)
     }
